@@ -9,6 +9,8 @@ Time is a counter of abstract ticks: the timing clauses are statements about the
 (a real event loop adds timer skew, which is outside).
 -/
 import GeckoModel.Proofs.ConfigLemmas
+import GeckoModel.Model.Coop
+import GeckoModel.Generated.Skeletons
 
 namespace GeckoModel.C17
 open GeckoModel.Config GeckoModel.Generated.Config
@@ -219,5 +221,17 @@ example : ∃ id d, Op.sleep id d ∈ demoOps := ⟨1, 5, by decide⟩
 example : (match (step (run Sys.init [.tick, .tick]) (.setMode true)).2 with | .error .assertErr => true | _ => false) = true := by
   decide +kernel
 example : ¬ ∃ id d, Op.sleep id d ∈ [Op.tick, Op.tick] := by simp
+
+/-- what a synchronous method / coroutine writes into its own object and which of its own methods or attributes it calls -/
+private def stateOf (sk : GeckoModel.Coop.Sk) : List String × List String :=
+  (GeckoModel.Coop.selfStateWritten sk, (GeckoModel.Coop.actions .call sk).filter GeckoModel.Coop.isSelfState)
+
+/-- **the facade keeps no opinion about the live table** (state inventory over the regenerated skeleton): `_on_config_device_change`
+writes no attribute of the facade - the mode is recomputed from the devices and handed to `set_config_mode` every time, so it cannot
+disagree with the process-wide table after another facade (an earlier connection) switched it -/
+theorem config_change_state_inventory :
+    stateOf GeckoModel.Generated.Skeletons.sk_automation_async_facade__GeckoAsyncFacade__on_config_device_change = ([], []) ∧
+    "set_config_mode" ∈ GeckoModel.Coop.actions .call GeckoModel.Generated.Skeletons.sk_automation_async_facade__GeckoAsyncFacade__on_config_device_change := by
+  decide +kernel
 
 end GeckoModel.C17
